@@ -1,8 +1,17 @@
-// Executor for C14: drives sqlx.SqlConn.Transact / TransactCtx (and
-// sqlc.CachedConn.TransactCtx) over a fake database/sql/driver that logs every
-// Begin / Exec / Commit / Rollback it receives and fails the calls the case asks
-// it to fail.  It only executes: it reports the driver log, how often the body
-// ran, what the body did, and raw facts about the returned error.
+// Executor for C14: drives the PUBLIC transaction API of go-zero
+// (sqlx.SqlConn.Transact / TransactCtx, sqlc.CachedConn.Transact / TransactCtx,
+// sqlx.NewSqlConn / NewSqlConnFromDB / NewSqlConnFromSession / NewSessionFromTx /
+// WithAcceptable, CachedConn.WithSession) over a scripted database/sql driver.
+//
+// A case is a set of transactions ("threads") on one or several long-lived SqlConn
+// objects, a schedule (which thread performs its next quantum: the call up to the
+// body's first statement, then one statement per quantum, then the end of the body
+// with the deferred Commit/Rollback), and the driver's script: the outcome
+// ok / fail / panic of its 1st, 2nd, 3rd ... call, whoever makes it.  The driver logs
+// every Begin / Exec / Query / Prepare / Stmt.Exec / Commit / Rollback it receives
+// with the thread on whose behalf it was made and the connection it arrived on.
+// The executor only executes and reports; generation, rendering and judging is in
+// tools/props/c14.py and coq/theories/C14.
 package main
 
 import (
@@ -11,8 +20,12 @@ import (
 	"database/sql/driver"
 	"errors"
 	"fmt"
+	"io"
+	"reflect"
 	"runtime"
 	"strings"
+	"sync/atomic"
+	"time"
 
 	"github.com/zeromicro/go-zero/core/breaker"
 	"github.com/zeromicro/go-zero/core/logx"
@@ -21,22 +34,40 @@ import (
 	"verifh/hx"
 )
 
-type Stmt struct {
-	Res    string `json:"res"`    // ok | fail (driver fails it) | ctx (context cancelled before it)
-	OnFail string `json:"onfail"` // stop (return the error) | ignore | panic
+// ---- case format -------------------------------------------------------------
+
+type Step struct {
+	Act     string `json:"act"`     // stmt | nest | selfcommit | selfrollback | cancel | nop | inner
+	Meth    string `json:"meth"`    // stmt: exec | query | prep
+	WithCtx bool   `json:"withctx"` // stmt: the ...Ctx variant with the body's context
+	Variant int    `json:"variant"` // which of the equivalent entry points (QueryRow / QueryRowPartial / ...; nest flavour)
+	OnFail  string `json:"onfail"`  // stop (return the error) | ignore | panic
+	Inner   int    `json:"inner"`   // inner: thread run inline here (a transaction on the pool inside the body)
+}
+
+type Thread struct {
+	Conn     int    `json:"conn"`     // index into conns
+	API      string `json:"api"`      // ctx | plain | cached | cachedplain
+	Dead     bool   `json:"dead"`     // context cancelled before the call
+	Rewrap   bool   `json:"rewrap"`   // the body talks to the tx through sqlx.NewSessionFromTx(<its *sql.Tx>)
+	Steps    []Step `json:"steps"`
+	Fin      string `json:"fin"`      // nil | err | panic | goexit
+	PanicVal string `json:"panicval"` // string | error | nil | struct | runtime
+	Inline   bool   `json:"inline"`   // only ever run from an "inner" step of another thread
+}
+
+type ConnSpec struct {
+	Kind   string `json:"kind"`   // db (NewSqlConnFromDB on the shared *sql.DB) | named (NewSqlConn) | bad (NewSqlConn, cannot open)
+	Accept int    `json:"accept"` // number of WithAcceptable options
 }
 
 type Case struct {
-	ID         int    `json:"id"`
-	API        string `json:"api"`  // ctx | plain | cached | cachedplain
-	Trip       bool   `json:"trip"` // trip the circuit breaker first
-	BeginOK    bool   `json:"begin_ok"`
-	Stmts      []Stmt `json:"stmts"`
-	Fin        string `json:"fin"` // nil | err | panic
-	CommitOK   bool   `json:"commit_ok"`
-	RollbackOK bool   `json:"rollback_ok"`
-	Ctx        string `json:"ctx"`    // "" | live | dead (cancelled before the call) | at (cancelled by the body)
-	CtxAt      int    `json:"ctx_at"` // at: just before statement ctx_at (== len(stmts): after the last one)
+	ID      int        `json:"id"`
+	Trip    bool       `json:"trip"` // trip the circuit breaker of conns[0] first
+	Conns   []ConnSpec `json:"conns"`
+	Threads []Thread   `json:"threads"`
+	Sched   []int      `json:"sched"`
+	Oracle  []string   `json:"oracle"` // ok | fail | panic, one per driver call; "+c": the caller's context is cancelled during that call
 }
 
 type ErrFacts struct {
@@ -49,19 +80,38 @@ type ErrFacts struct {
 	Recover    bool   `json:"recover"`
 	TxFailed   bool   `json:"txfailed"`
 	Canceled   bool   `json:"canceled"`
+	TxDone     bool   `json:"txdone"`
+	NoConn     bool   `json:"noconn"`
+	Nest       bool   `json:"nest"`
 	Text       string `json:"text"`
 }
 
+type TOut struct {
+	Started   bool     `json:"started"`
+	Finished  bool     `json:"finished"`
+	Returned  bool     `json:"returned"` // Transact returned normally (an error or nil)
+	Panicked  string   `json:"panicked,omitempty"`
+	DidPanic  bool     `json:"did_panic"` // Transact itself panicked
+	Runs      int      `json:"runs"`
+	Body      []any    `json:"body"` // none | running | nil | user | stmt k | ctx k | txdone k | nest k | selfc k | selfr k | panic | goexit
+	Err       ErrFacts `json:"err"`
+	InUse     int      `json:"inuse"`     // connections checked out when the call had ended
+	NestRuns  int      `json:"nest_runs"` // invocations of bodies given to a nested Transact on the session
+	SelfEnded bool     `json:"self_ended"`
+	Acc       int      `json:"acc"`      // calls of the user's acceptable functions during this call
+	AccSame   bool     `json:"acc_same"` // ... each with the very error Transact returned
+	Rejected  bool     `json:"rejected"` // circuit breaker refused the call
+	ConnID    int      `json:"conn_id"`  // connection of this thread's Begin (0: none)
+}
+
 type Out struct {
-	ID       int      `json:"id"`
-	Log      [][]any  `json:"log"`      // ["begin",ok] ["exec",k,ok] ["commit",ok] ["rollback",ok]
-	Runs     int      `json:"runs"`     // times the body was invoked
-	Body     []any    `json:"body"`     // ["none"] ["nil"] ["user"] ["stmt",k] ["ctx",k] ["panic"]
-	Err      ErrFacts `json:"err"`
-	InUse    int      `json:"inuse"`    // connections still checked out afterwards
-	Rejected bool     `json:"rejected"` // circuit breaker refused the call
-	Panicked string   `json:"panicked,omitempty"`
-	Fail     string   `json:"fail,omitempty"`
+	ID      int     `json:"id"`
+	Log     [][]any `json:"log"` // [tid, conn, kind, k, outcome]
+	ESched  []int   `json:"esched"`
+	Threads []TOut  `json:"threads"`
+	Used    int     `json:"used"`  // driver calls made
+	InUse   int     `json:"inuse"` // connections checked out when every call had ended
+	Fail    string  `json:"fail,omitempty"`
 }
 
 var (
@@ -69,225 +119,693 @@ var (
 	errCommit   = errors.New("inj: commit failed")
 	errRollback = errors.New("inj: rollback failed (driver)")
 	errUser     = errors.New("inj: body says no")
+	errOpen     = errors.New("inj: cannot open")
 )
 
-// ---- the fake driver -------------------------------------------------------
+type customPanic struct {
+	A int
+	B string
+}
+
+// ---- the scripted driver -------------------------------------------------------
 
 type plan struct {
 	c       *Case
 	log     [][]any
-	stmtErr map[int]error
-	armed   bool // faults and logging are active (off while tripping the breaker)
+	used    int
+	armed   bool // script and logging active (off while tripping the breaker / pinging)
+	cur     int  // thread on whose behalf driver calls are made right now
+	nextID  int
+	stmtErr map[string]error
+	fail    string
+	cancel  func(tid int) // cancels the context of that thread's TransactCtx call
 }
 
-type connector struct{ p *plan }
+var curPlan atomic.Pointer[plan]
 
-func (c connector) Connect(context.Context) (driver.Conn, error) { return &fconn{p: c.p}, nil }
-func (c connector) Driver() driver.Driver                        { return fdriver{} }
+func (p *plan) next() string {
+	i := p.used
+	p.used++
+	if i < len(p.c.Oracle) {
+		return p.c.Oracle[i]
+	}
+	return "ok"
+}
+
+// call logs one driver call and returns its scripted outcome. A scripted panic is
+// honoured by Commit / Rollback only; everywhere else it is an ordinary failure.
+func (p *plan) call(conn int, kind string, k int) string {
+	o := p.next()
+	if strings.HasSuffix(o, "+c") {
+		o = strings.TrimSuffix(o, "+c")
+		if kind != "query" && p.cancel != nil {
+			p.cancel(p.cur)
+		}
+	}
+	if o == "panic" && kind != "commit" && kind != "rollback" {
+		o = "fail"
+	}
+	p.log = append(p.log, []any{p.cur, conn, kind, k, o})
+	return o
+}
+
+func (p *plan) stmtError(tid, k int) error {
+	key := fmt.Sprintf("%d/%d", tid, k)
+	if e, ok := p.stmtErr[key]; ok {
+		return e
+	}
+	e := fmt.Errorf("inj: statement %d of transaction %d failed", k, tid)
+	p.stmtErr[key] = e
+	return e
+}
+
+type connector struct{}
+
+func (connector) Connect(context.Context) (driver.Conn, error) { return newConn(""), nil }
+func (connector) Driver() driver.Driver                        { return fdriver{} }
 
 type fdriver struct{}
 
-func (fdriver) Open(string) (driver.Conn, error) { return nil, errors.New("not used") }
+// Open serves sqlx.NewSqlConn("verifc14", dsn).
+func (fdriver) Open(dsn string) (driver.Conn, error) {
+	if strings.HasPrefix(dsn, "bad") {
+		return nil, errOpen
+	}
+	return newConn(dsn), nil
+}
 
-type fconn struct{ p *plan }
+func newConn(dsn string) *fconn {
+	p := curPlan.Load()
+	p.nextID++
+	return &fconn{p: p, id: p.nextID}
+}
 
-func (c *fconn) Prepare(string) (driver.Stmt, error) { return nil, errors.New("prepare not supported") }
-func (c *fconn) Close() error                        { return nil }
+type fconn struct {
+	p  *plan
+	id int
+}
+
+func parseQ(q string) (tid, k int, err error) {
+	if _, e := fmt.Sscanf(q, "t%d stmt %d", &tid, &k); e != nil {
+		return 0, 0, fmt.Errorf("unexpected query %q", q)
+	}
+	return
+}
+
+func (c *fconn) Close() error { return nil }
+
 func (c *fconn) Begin() (driver.Tx, error) {
 	p := c.p
 	if !p.armed {
 		return nil, errBegin
 	}
-	if !p.c.BeginOK {
-		p.log = append(p.log, []any{"begin", false})
+	if p.call(c.id, "begin", -1) != "ok" {
 		return nil, errBegin
 	}
-	p.log = append(p.log, []any{"begin", true})
-	return &ftx{p: p}, nil
+	return &ftx{c: c}, nil
+}
+
+func (c *fconn) stmt(kind, q string) error {
+	p := c.p
+	tid, k, err := parseQ(q)
+	if err != nil {
+		p.fail = err.Error()
+		return err
+	}
+	if tid != p.cur {
+		p.fail = fmt.Sprintf("statement %q issued while thread %d was running", q, p.cur)
+	}
+	if p.call(c.id, kind, k) != "ok" {
+		return p.stmtError(tid, k)
+	}
+	return nil
 }
 
 func (c *fconn) ExecContext(_ context.Context, q string, _ []driver.NamedValue) (driver.Result, error) {
-	p := c.p
-	var k int
-	if _, err := fmt.Sscanf(q, "stmt %d", &k); err != nil {
-		return nil, fmt.Errorf("unexpected query %q", q)
+	if err := c.stmt("exec", q); err != nil {
+		return nil, err
 	}
-	if k >= 0 && k < len(p.c.Stmts) && p.c.Stmts[k].Res == "fail" {
-		p.log = append(p.log, []any{"exec", k, false})
-		return nil, p.stmtErr[k]
-	}
-	p.log = append(p.log, []any{"exec", k, true})
 	return driver.RowsAffected(1), nil
 }
 
-type ftx struct{ p *plan }
-
-func (t *ftx) Commit() error {
-	if !t.p.c.CommitOK {
-		t.p.log = append(t.p.log, []any{"commit", false})
-		return errCommit
+func (c *fconn) QueryContext(_ context.Context, q string, _ []driver.NamedValue) (driver.Rows, error) {
+	if err := c.stmt("query", q); err != nil {
+		return nil, err
 	}
-	t.p.log = append(t.p.log, []any{"commit", true})
+	return &frows{}, nil
+}
+
+func (c *fconn) Prepare(q string) (driver.Stmt, error) {
+	if err := c.stmt("prepare", q); err != nil {
+		return nil, err
+	}
+	return &fstmt{c: c, q: q}, nil
+}
+
+type fstmt struct {
+	c *fconn
+	q string
+}
+
+func (s *fstmt) Close() error  { return nil }
+func (s *fstmt) NumInput() int { return -1 }
+func (s *fstmt) Exec([]driver.Value) (driver.Result, error) {
+	if err := s.c.stmt("stmtexec", s.q); err != nil {
+		return nil, err
+	}
+	return driver.RowsAffected(1), nil
+}
+func (s *fstmt) Query([]driver.Value) (driver.Rows, error) { return nil, errors.New("not used") }
+
+type frows struct{ done bool }
+
+func (r *frows) Columns() []string { return []string{"v"} }
+func (r *frows) Close() error      { return nil }
+func (r *frows) Next(dest []driver.Value) error {
+	if r.done {
+		return io.EOF
+	}
+	r.done = true
+	dest[0] = int64(7)
 	return nil
 }
 
-func (t *ftx) Rollback() error {
-	if !t.p.c.RollbackOK {
-		t.p.log = append(t.p.log, []any{"rollback", false})
-		return errRollback
+type ftx struct{ c *fconn }
+
+func (t *ftx) end(kind string, e error) error {
+	switch t.c.p.call(t.c.id, kind, -1) {
+	case "ok":
+		return nil
+	case "panic":
+		panic("inj: driver " + kind + " panics")
 	}
-	t.p.log = append(t.p.log, []any{"rollback", true})
+	return e
+}
+func (t *ftx) Commit() error   { return t.end("commit", errCommit) }
+func (t *ftx) Rollback() error { return t.end("rollback", errRollback) }
+
+// ---- running one case ------------------------------------------------------------
+
+type acceptor struct {
+	tids []int // thread running when the function was consulted
+	args []error
+}
+
+type thr struct {
+	spec     *Thread
+	out      TOut
+	goch     chan struct{}
+	done     chan struct{}
+	nogate   bool
+	cancel   context.CancelFunc
+	bodyRet  error
+	retErr   error
+	finished bool
+}
+
+type runner struct {
+	c       *Case
+	p       *plan
+	db      *sql.DB
+	dbs     []*sql.DB
+	conns   []sqlx.SqlConn
+	accs    [][]*acceptor
+	threads []*thr
+	parked  chan struct{}
+	esched  []int
+	fail    string
+}
+
+var dsnSeq int
+
+func (r *runner) inUse() int {
+	n := 0
+	for _, d := range r.dbs {
+		n += d.Stats().InUse
+	}
+	return n
+}
+
+func (r *runner) setup() {
+	c := r.c
+	r.db = sql.OpenDB(connector{})
+	r.dbs = append(r.dbs, r.db)
+	for i, cs := range c.Conns {
+		var opts []sqlx.SqlOption
+		var as []*acceptor
+		for j := 0; j < cs.Accept; j++ {
+			a := &acceptor{}
+			as = append(as, a)
+			opts = append(opts, sqlx.WithAcceptable(func(err error) bool {
+				a.tids = append(a.tids, curPlan.Load().cur)
+				a.args = append(a.args, err)
+				return false
+			}))
+		}
+		r.accs = append(r.accs, as)
+		switch cs.Kind {
+		case "named", "bad":
+			dsnSeq++
+			dsn := fmt.Sprintf("c14-%d-%d-%d", c.ID, i, dsnSeq)
+			if cs.Kind == "bad" {
+				dsn = "bad-" + dsn
+			}
+			conn := sqlx.NewSqlConn("verifc14", dsn, opts...)
+			if cs.Kind == "named" {
+				// the pool is created (and pinged) by the first use; do it now, unarmed
+				if raw, err := conn.RawDB(); err == nil {
+					r.dbs = append(r.dbs, raw)
+				} else {
+					r.fail = "named connection could not be opened: " + err.Error()
+				}
+			}
+			r.conns = append(r.conns, conn)
+		default:
+			r.conns = append(r.conns, sqlx.NewSqlConnFromDB(r.db, opts...))
+		}
+	}
+}
+
+func (r *runner) gate(t int) {
+	th := r.threads[t]
+	if th.nogate {
+		return
+	}
+	r.parked <- struct{}{}
+	<-th.goch
+}
+
+func (r *runner) quantum(t int) bool {
+	th := r.threads[t]
+	if th.finished || th.spec.Inline {
+		return true
+	}
+	r.p.cur = t
+	r.esched = append(r.esched, t)
+	if !th.out.Started {
+		th.out.Started = true
+		go r.threadMain(t)
+	} else {
+		th.goch <- struct{}{}
+	}
+	select {
+	case <-r.parked:
+		return true
+	case <-time.After(20 * time.Second):
+		r.fail = fmt.Sprintf("thread %d did not reach its next gate", t)
+		return false
+	}
+}
+
+func (r *runner) runInline(j int) {
+	if j < 0 || j >= len(r.threads) {
+		return
+	}
+	th := r.threads[j]
+	if th.out.Started {
+		return
+	}
+	prev := r.p.cur
+	r.p.cur = j
+	th.nogate = true
+	th.out.Started = true
+	for i := 0; i < len(th.spec.Steps)+2; i++ {
+		r.esched = append(r.esched, j)
+	}
+	go r.threadMain(j)
+	<-th.done
+	r.p.cur = prev
+}
+
+func (r *runner) accCalls(conn, t int) (n int, args []error) {
+	for _, a := range r.accs[conn] {
+		for i, tid := range a.tids {
+			if tid == t {
+				n++
+				args = append(args, a.args[i])
+			}
+		}
+	}
+	return
+}
+
+func (r *runner) threadMain(t int) {
+	th := r.threads[t]
+	sp := th.spec
+	conn := r.conns[sp.Conn]
+	defer func() {
+		if rec := recover(); rec != nil {
+			th.out.DidPanic = true
+			th.out.Panicked = fmt.Sprint(rec)
+		}
+		r.finish(t)
+		th.finished = true
+		th.out.Finished = true
+		close(th.done)
+		if !th.nogate {
+			r.parked <- struct{}{}
+		}
+	}()
+	callCtx, cancel := context.WithCancel(context.Background())
+	th.cancel = cancel
+	defer cancel()
+	if sp.Dead {
+		cancel()
+	}
+	body := r.body(t)
+	var err error
+	switch sp.API {
+	case "plain":
+		err = conn.Transact(func(s sqlx.Session) error { return body(context.Background(), s) })
+	case "cached":
+		err = sqlc.NewConnWithCache(conn, nil).TransactCtx(callCtx, body)
+	case "cachedplain":
+		err = sqlc.NewConnWithCache(conn, nil).Transact(func(s sqlx.Session) error {
+			return body(context.Background(), s)
+		})
+	default:
+		err = conn.TransactCtx(callCtx, body)
+	}
+	th.retErr = err
+	th.out.Returned = true
+}
+
+func (r *runner) finish(t int) {
+	th := r.threads[t]
+	out := &th.out
+	out.InUse = r.inUse()
+	n, args := r.accCalls(th.spec.Conn, t)
+	out.Acc = n
+	out.AccSame = true
+	for _, a := range args {
+		if a != th.retErr {
+			out.AccSame = false
+		}
+	}
+	for _, e := range r.p.log {
+		if e[0].(int) == t && e[2].(string) == "begin" {
+			out.ConnID = e[1].(int)
+		}
+	}
+	f := &out.Err
+	err := th.retErr
+	if !out.Returned {
+		return
+	}
+	if err == nil {
+		f.Nil = true
+		return
+	}
+	msg := err.Error()
+	f.Text = msg
+	f.Unavail = errors.Is(err, breaker.ErrServiceUnavailable)
+	f.Begin = errors.Is(err, errBegin)
+	f.Commit = errors.Is(err, errCommit)
+	f.Rollback = errors.Is(err, errRollback)
+	f.Canceled = errors.Is(err, context.Canceled)
+	f.TxDone = errors.Is(err, sql.ErrTxDone)
+	f.NoConn = errors.Is(err, errOpen)
+	f.Nest = msg == "cannot nest transactions"
+	f.SameAsBody = th.bodyRet != nil && err == th.bodyRet
+	f.Recover = strings.HasPrefix(msg, "recover from ")
+	f.TxFailed = th.bodyRet != nil && strings.HasPrefix(msg, "transaction failed: "+th.bodyRet.Error()+", rollback failed: ")
+	mine := false
+	for _, e := range r.p.log {
+		if e[0].(int) == t {
+			mine = true
+		}
+	}
+	out.Rejected = f.Unavail && !mine && out.Runs == 0
+}
+
+func rawTx(s sqlx.Session) *sql.Tx {
+	v := reflect.ValueOf(s)
+	if v.Kind() == reflect.Struct && v.NumField() == 1 {
+		if tx, ok := v.Field(0).Interface().(*sql.Tx); ok {
+			return tx
+		}
+	}
 	return nil
 }
 
-// ---- one case -------------------------------------------------------------
-
-func runCase(c Case) (out Out) {
-	out.ID = c.ID
-	out.Body = []any{"none"}
-	p := &plan{c: &c, stmtErr: map[int]error{}, armed: true}
-	for k := range c.Stmts {
-		p.stmtErr[k] = fmt.Errorf("inj: statement %d failed", k)
-	}
-	db := sql.OpenDB(connector{p: p})
-	defer db.Close()
-	conn := sqlx.NewSqlConnFromDB(db)
-
-	if c.Trip {
-		// failed transactions (begin fails) until the breaker starts refusing
-		p.armed = false
-		tripped := false
-		for i := 0; i < 5000 && !tripped; i++ {
-			err := conn.Transact(func(sqlx.Session) error { return nil })
-			tripped = errors.Is(err, breaker.ErrServiceUnavailable)
+func (r *runner) doStmt(ctx context.Context, s sqlx.Session, t, k int, st Step) error {
+	q := fmt.Sprintf("t%d stmt %d", t, k)
+	switch st.Meth {
+	case "prep":
+		var ps sqlx.StmtSession
+		var err error
+		if st.WithCtx {
+			ps, err = s.PrepareCtx(ctx, q)
+		} else {
+			ps, err = s.Prepare(q)
 		}
-		p.armed = true
-		if !tripped {
-			out.Fail = "could not trip the breaker"
-			return
+		if err != nil {
+			return err
 		}
+		defer ps.Close()
+		if st.WithCtx {
+			_, err = ps.ExecCtx(ctx)
+		} else {
+			_, err = ps.Exec()
+		}
+		return err
+	case "query":
+		var one int64
+		var many []int64
+		var err error
+		switch st.Variant % 4 {
+		case 0:
+			if st.WithCtx {
+				err = s.QueryRowCtx(ctx, &one, q)
+			} else {
+				err = s.QueryRow(&one, q)
+			}
+		case 1:
+			if st.WithCtx {
+				err = s.QueryRowPartialCtx(ctx, &one, q)
+			} else {
+				err = s.QueryRowPartial(&one, q)
+			}
+		case 2:
+			if st.WithCtx {
+				err = s.QueryRowsCtx(ctx, &many, q)
+			} else {
+				err = s.QueryRows(&many, q)
+			}
+		default:
+			if st.WithCtx {
+				err = s.QueryRowsPartialCtx(ctx, &many, q)
+			} else {
+				err = s.QueryRowsPartial(&many, q)
+			}
+		}
+		if err == nil && st.Variant%4 < 2 && one != 7 {
+			return fmt.Errorf("query returned %d", one)
+		}
+		if err == nil && st.Variant%4 >= 2 && (len(many) != 1 || many[0] != 7) {
+			return fmt.Errorf("query returned %v", many)
+		}
+		return err
+	default:
+		var err error
+		if st.WithCtx {
+			_, err = s.ExecCtx(ctx, q)
+		} else {
+			_, err = s.Exec(q)
+		}
+		return err
 	}
+}
 
-	var bodyRet error
-	plain := c.API == "plain" || c.API == "cachedplain"
-	callCtx, cancelCall := context.WithCancel(context.Background())
-	defer cancelCall()
-	if c.Ctx == "dead" {
-		cancelCall()
+// doNest: the body tries to open a transaction on the session it was given.
+func (r *runner) doNest(ctx context.Context, s sqlx.Session, th *thr, st Step) error {
+	inner := func(sqlx.Session) error { th.out.NestRuns++; return nil }
+	innerCtx := func(context.Context, sqlx.Session) error { th.out.NestRuns++; return nil }
+	switch st.Variant % 4 {
+	case 0:
+		return sqlx.NewSqlConnFromSession(s).Transact(inner)
+	case 1:
+		return sqlx.NewSqlConnFromSession(s).TransactCtx(ctx, innerCtx)
+	case 2:
+		return sqlc.NewConnWithCache(r.conns[th.spec.Conn], nil).WithSession(s).Transact(inner)
+	default:
+		return sqlc.NewConnWithCache(r.conns[th.spec.Conn], nil).WithSession(s).TransactCtx(ctx, innerCtx)
 	}
-	body := func(ctx context.Context, s sqlx.Session) error {
+}
+
+func (r *runner) body(t int) func(context.Context, sqlx.Session) error {
+	th := r.threads[t]
+	sp := th.spec
+	out := &th.out
+	return func(ctx context.Context, s sqlx.Session) (ret error) {
 		out.Runs++
 		out.Body = []any{"running"}
-		if c.Ctx == "at" && c.CtxAt >= len(c.Stmts) {
-			defer cancelCall()
-		}
-		for k, st := range c.Stmts {
-			if c.Ctx == "at" && c.CtxAt == k {
-				cancelCall()
+		defer func() {
+			// a panic that did not originate in this script (the driver's): record it and pass it on
+			if out.Body[0] == "running" {
+				if p := recover(); p != nil {
+					out.Body = []any{"panic"}
+					panic(p)
+				}
 			}
+		}()
+		if sp.Rewrap {
+			if tx := rawTx(s); tx != nil {
+				s = sqlx.NewSessionFromTx(tx)
+			} else {
+				r.fail = "session does not hold a *sql.Tx"
+			}
+		}
+		for k, st := range sp.Steps {
+			r.gate(t)
 			var err error
-			q := fmt.Sprintf("stmt %d", k)
-			switch {
-			case st.Res == "ctx":
-				cctx, cancel := context.WithCancel(ctx)
-				cancel()
-				_, err = s.ExecCtx(cctx, q)
-			case plain:
-				_, err = s.Exec(q)
-			default:
-				_, err = s.ExecCtx(ctx, q)
+			switch st.Act {
+			case "stmt":
+				err = r.doStmt(ctx, s, t, k, st)
+			case "nest":
+				err = r.doNest(ctx, s, th, st)
+			case "selfcommit":
+				out.SelfEnded = true
+				err = s.(interface{ Commit() error }).Commit()
+			case "selfrollback":
+				out.SelfEnded = true
+				err = s.(interface{ Rollback() error }).Rollback()
+			case "cancel":
+				th.cancel()
+			case "inner":
+				r.runInline(st.Inner)
 			}
 			if err == nil {
 				continue
 			}
 			switch st.OnFail {
 			case "stop":
-				if st.Res == "ctx" || errors.Is(err, context.Canceled) {
+				switch {
+				case errors.Is(err, context.Canceled):
 					out.Body = []any{"ctx", k}
-				} else {
+				case errors.Is(err, sql.ErrTxDone):
+					out.Body = []any{"txdone", k}
+				case errors.Is(err, errCommit):
+					out.Body = []any{"selfc", k}
+				case errors.Is(err, errRollback):
+					out.Body = []any{"selfr", k}
+				case strings.Contains(err.Error(), "cannot nest transactions"):
+					out.Body = []any{"nest", k}
+				default:
 					out.Body = []any{"stmt", k}
 				}
-				bodyRet = err
+				th.bodyRet = err
 				return err
 			case "panic":
 				out.Body = []any{"panic"}
 				panic(fmt.Sprintf("statement %d failed: %v", k, err))
 			}
 		}
-		switch c.Fin {
+		r.gate(t)
+		switch sp.Fin {
 		case "err":
 			out.Body = []any{"user"}
-			bodyRet = errUser
+			th.bodyRet = errUser
 			return errUser
 		case "panic":
 			out.Body = []any{"panic"}
+			switch sp.PanicVal {
+			case "error":
+				panic(errors.New("body panics with an error"))
+			case "nil":
+				panic(nil)
+			case "struct":
+				panic(customPanic{A: 1, B: "x"})
+			case "runtime":
+				var m map[string]int
+				m["x"] = 1
+			}
 			panic("body panics")
-		case "goexit": // not generated by the check: used once to record what happens (notes/C14.md)
+		case "goexit":
 			out.Body = []any{"goexit"}
 			runtime.Goexit()
 		}
 		out.Body = []any{"nil"}
 		return nil
 	}
+}
 
-	var err error
-	call := func() {
-		defer func() {
-			if r := recover(); r != nil {
-				out.Panicked = fmt.Sprint(r)
-			}
-		}()
-		switch c.API {
-		case "plain":
-			err = conn.Transact(func(s sqlx.Session) error { return body(context.Background(), s) })
-		case "cached":
-			err = sqlc.NewConnWithCache(conn, nil).TransactCtx(callCtx, body)
-		case "cachedplain":
-			err = sqlc.NewConnWithCache(conn, nil).Transact(func(s sqlx.Session) error {
-				return body(context.Background(), s)
-			})
-		default:
-			err = conn.TransactCtx(callCtx, body)
+func runCase(c Case) (out Out) {
+	out.ID = c.ID
+	p := &plan{c: &c, stmtErr: map[string]error{}, armed: false, cur: -1}
+	curPlan.Store(p)
+	r := &runner{c: &c, p: p, parked: make(chan struct{})}
+	p.cancel = func(tid int) {
+		if tid >= 0 && tid < len(r.threads) && r.threads[tid].cancel != nil {
+			r.threads[tid].cancel()
 		}
 	}
-	if c.Fin == "goexit" {
-		done := make(chan struct{})
-		go func() {
-			defer close(done)
-			call()
-		}()
-		<-done
-		err = errors.New("goroutine exited: Transact never returned")
-	} else {
-		call()
+	r.setup()
+	defer func() {
+		for _, d := range r.dbs {
+			d.Close()
+		}
+	}()
+	for i := range c.Threads {
+		r.threads = append(r.threads, &thr{spec: &c.Threads[i], goch: make(chan struct{}), done: make(chan struct{}),
+			out: TOut{Body: []any{"none"}, AccSame: true}})
 	}
-
+	if c.Trip && len(r.conns) > 0 {
+		tripped := false
+		for i := 0; i < 5000 && !tripped; i++ {
+			err := r.conns[0].Transact(func(sqlx.Session) error { return nil })
+			tripped = errors.Is(err, breaker.ErrServiceUnavailable)
+		}
+		if !tripped {
+			out.Fail = "could not trip the breaker"
+			return
+		}
+		for _, as := range r.accs {
+			for _, a := range as {
+				a.tids, a.args = nil, nil
+			}
+		}
+	}
+	p.armed = true
+	ok := true
+	for _, t := range c.Sched {
+		if t < 0 || t >= len(r.threads) {
+			continue
+		}
+		if ok = r.quantum(t); !ok {
+			break
+		}
+	}
+	// drain: every transaction that was begun is run to its end
+	for t := 0; ok && t < len(r.threads); t++ {
+		for i := 0; ok && i < len(c.Threads[t].Steps)+2 && !r.threads[t].finished; i++ {
+			ok = r.quantum(t)
+		}
+	}
 	out.Log = p.log
 	if out.Log == nil {
 		out.Log = [][]any{}
 	}
-	out.InUse = db.Stats().InUse
-	f := &out.Err
-	if err == nil {
-		f.Nil = true
-	} else {
-		msg := err.Error()
-		f.Text = msg
-		f.Unavail = errors.Is(err, breaker.ErrServiceUnavailable)
-		f.Begin = errors.Is(err, errBegin)
-		f.Commit = errors.Is(err, errCommit)
-		f.Rollback = errors.Is(err, errRollback)
-		f.Canceled = errors.Is(err, context.Canceled)
-		f.SameAsBody = bodyRet != nil && err == bodyRet
-		f.Recover = strings.HasPrefix(msg, "recover from ")
-		f.TxFailed = bodyRet != nil && strings.HasPrefix(msg, "transaction failed: "+bodyRet.Error()+", rollback failed: ")
+	out.ESched = r.esched
+	if out.ESched == nil {
+		out.ESched = []int{}
 	}
-	out.Rejected = f.Unavail && len(out.Log) == 0 && out.Runs == 0
+	out.Used = p.used
+	out.InUse = r.inUse()
+	for _, th := range r.threads {
+		out.Threads = append(out.Threads, th.out)
+	}
+	if r.fail != "" {
+		out.Fail = r.fail
+	} else if p.fail != "" {
+		out.Fail = p.fail
+	}
 	return
 }
 
 func main() {
 	logx.Disable()
+	sql.Register("verifc14", fdriver{})
 	var cases []Case
 	hx.ReadCases(&cases)
 	w := hx.NewWriter()
